@@ -184,6 +184,7 @@ def gen_role_input(rng, nmax):
     n = rng.randint(2, nmax)
     kinds = ["CNOT", "CNOT", "X", "RX", "Z", "RZ", "TOFFOLI", "FREDKIN", "RZX", "CZ", "CRX", "SWAP"]
     specs = [rand_role_form(rng, N) if rng.random() < 0.6 else S.rand_gate(rng, N, kinds) for _ in range(n)]
+    sprinkle_phase(rng, specs)
     return dict(instrs=specs, method=rng.choice(["ASAP", "ALAP"]), perm=rng.random() < 0.85, random=rng.random() < 0.3,
                 shuf_seed=rng.randrange(10 ** 6), mode=rng.choice(["cycles", "cycles", "indices"]),
                 **{"as": rng.choice(["circuit", "gates"])})
@@ -202,7 +203,7 @@ def wf_sweep(corr, gates):
     sched_sem_unitary would treat it as the identity and say nothing about it)"""
     uniq = {}
     for g in gates:
-        if g["name"] not in (S.USER_GATE, "GLOBALPHASE"):
+        if g["name"] not in (S.USER_GATE, S.USER_LIST_GATE):
             uniq.setdefault(json.dumps(g, sort_keys=True), g)
     gs = list(uniq.values())
     body = (S.COQ_PRELUDE + "From QV Require Import Proofs.SchedReal.\n" + "\n".join(
@@ -220,9 +221,20 @@ def wf_sweep(corr, gates):
     corr.extra["wf_gates"] = len(gs)
 
 
+_INSTR = {}
+
+
+def _instruction_of(spec):
+    """one Instruction object per distinct placed gate (commutation_rules only reads them)"""
+    k = json.dumps(spec, sort_keys=True)
+    if k not in _INSTR:
+        _INSTR[k] = S.mk_instruction(dict(spec, dur=[1, 1]))
+    return _INSTR[k]
+
+
 def real_rule(s1, s2):
     from qutip_qip.compiler import Scheduler
-    ins = [S.mk_instruction(dict(s1, dur=[1, 1])), S.mk_instruction(dict(s2, dur=[1, 1]))]
+    ins = [_instruction_of(s1), _instruction_of(s2)]
     return bool(Scheduler("ASAP").commutation_rules(0, 1, ins))
 
 
@@ -279,15 +291,59 @@ def rule_sweep(ctx, corr):
             if v != r:
                 corr.disagree(dict(instrs=[a, b], mode="rule"), r, v, "commutation_rules model vs Scheduler.commutation_rules")
     corr.extra["rule_pairs"] = len(items)
-    wf_sweep(corr, gates + forms + g4 + f4)
+    wf_sweep(corr, gates + forms + g4 + f4 + [dict(name="GLOBALPHASE", targets=None, controls=None, arg=0.5)])
 
 
 # --------------------------------------------------------------------------------------------------
+def sprinkle_phase(rng, specs, p=0.25, maxlen=8):
+    """with probability p put one or two GLOBALPHASE gates (no qubit at all, e.g. from resolve_gates) somewhere into the
+    gate list - also in front of everything; the list keeps at most maxlen gates (exact comparison needs <= 8)"""
+    if rng.random() < p:
+        k = rng.choice([1, 1, 2])
+        del specs[max(1, maxlen - k):]
+        for _ in range(k):
+            specs.insert(rng.randint(0, len(specs)), dict(name="GLOBALPHASE", targets=None, controls=None, arg=rng.choice(S.ANGLES)))
+    return specs
+
+
+PARAM_ALPHABET = [0.5, 1.25]     # small on purpose: equal-prefix / equal-suffix / fully equal parameter tuples occur often
+
+
+def gen_multiparam(rng):
+    """same-name gates with SEVERAL parameters (QASMU, R, MS, a user gate with a list argument) on the same targets,
+    adjacent and separated by other gates, parameter tuples over a two-letter alphabet"""
+    N = rng.choice([1, 2, 2, 3])
+    n = rng.randint(2, 6)
+    fams = ["QASMU", "QASMU", "QASMU", S.USER_LIST_GATE, "R"] + (["MS"] if N >= 2 else [])
+    fam = rng.choice(fams)
+    a = lambda: rng.choice(PARAM_ALPHABET)
+    pair = sorted(rng.sample(range(N), 2)) if N >= 2 else None
+    q0 = rng.randrange(N)
+    specs = []
+    for _ in range(n):
+        if rng.random() < 0.75:
+            if fam == "MS":
+                specs.append(dict(name="MS", targets=list(pair), controls=None, arg=[a(), a()]))
+            elif fam == "R":
+                specs.append(dict(name="R", targets=[q0], controls=None, arg=[a(), a()]))
+            else:
+                specs.append(dict(name=fam, targets=[q0], controls=None, arg=[a(), a(), a()]))
+        elif N >= 2:
+            specs.append(S.rand_gate(rng, N, ["X", "RZ", "CNOT", "SNOT", "QASMU", "R"]))
+        else:
+            specs.append(dict(name=rng.choice(["X", "Z", "SNOT"]), targets=[0], controls=None, arg=None))
+    sprinkle_phase(rng, specs, 0.15)
+    return dict(instrs=specs, method=rng.choice(["ASAP", "ALAP"]), perm=rng.random() < 0.9, random=rng.random() < 0.35,
+                shuf_seed=rng.randrange(10 ** 6), mode=rng.choice(["cycles", "cycles", "indices"]),
+                **{"as": rng.choice(["circuit", "gates"])})
+
+
 def gen_gate_input(rng, nmax, N=None, kinds=None):
     inp = S.gen_input(rng, nmax, N=N, mode=rng.choice(["cycles", "cycles", "indices"]), kinds=kinds)
     for s in inp["instrs"]:
         s.pop("dur", None)
         s.pop("how", None)
+    sprinkle_phase(rng, inp["instrs"], maxlen=max(nmax, 3))
     inp["as"] = rng.choice(["circuit", "gates"])
     return inp
 
@@ -429,7 +485,7 @@ def gen_history(rng):
     steps = []
     for k in range(nsteps):
         n = n0 if same_len else rng.randint(1, 6)
-        style = rng.choice(["distinct", "sharing", "sharing", "random", "random-small", "roles"])
+        style = rng.choice(["distinct", "sharing", "sharing", "random", "random-small", "roles", "multiparam"])
         if style == "distinct":
             specs = _distinct_1q(rng, n, N)
         elif style == "sharing":
@@ -438,8 +494,11 @@ def gen_history(rng):
             specs = [S.rand_gate(rng, N) for _ in range(n)]
         elif style == "roles":
             specs = [rand_role_form(rng, N) for _ in range(n)]
+        elif style == "multiparam":
+            specs = gen_multiparam(rng)["instrs"]
         else:
             specs = [S.rand_gate(rng, N, ["CNOT", "CNOT", "X", "RX", "Z", "RZ", "SNOT", "CZ", "SWAP"]) for _ in range(n)]
+        sprinkle_phase(rng, specs)
         step = dict(instrs=specs, method=method, perm=perm, random=rng.random() < 0.3, shuf_seed=rng.randrange(10 ** 6),
                     mode=rng.choice(["cycles", "indices"]), **{"as": rng.choice(["circuit", "gates"])})
         if rng.random() < 0.15:
@@ -493,6 +552,8 @@ def correspond(ctx):
         exact.append(("same-name-heavy", gen_gate_input(rng, 7, N=rng.choice([3, 4]), kinds=["R", "R", "QASMU", "MS", "FREDKIN", "FREDKIN", "TOFFOLI", "CRX", "CNOT", "RX", "SWAP"])))
     for _ in range(ctx.n(500, 2500)):
         exact.append(("role-forms", gen_role_input(rng, 7)))
+    for _ in range(ctx.n(500, 2500)):
+        exact.append(("multi-parameter-alphabet", gen_multiparam(rng)))
     for _ in range(ctx.n(60, 300)):
         inp = gen_gate_input(rng, 6)
         inp["mode"] = "indices"
@@ -609,6 +670,12 @@ def search(ctx, broken):
                                     expected="a valid, unitary-preserving schedule for every call",
                                     what="reused Scheduler object: " + bad[0]))
                     break
+    for _ in range(600):
+        if len(out) + len(c.oracle_failures) >= 2:
+            break
+        inp = gen_multiparam(rng)
+        res, _ = S.run_real(inp)
+        check_real(c, inp, res)
     for _ in range(600):
         if len(out) + len(c.oracle_failures) >= 2:
             break
